@@ -279,6 +279,54 @@ def specs_exhaustive(nmax, mmax):
                 yield n, m, [alphabet[c] for c in combo]
 
 
+def judge_item_limit(ctx, rng):
+    """the message of a multisig check is built under the run's OWN item
+    limit: a 2-of-3 quorum over a message longer than the default limit
+    passes where the verifier raised the limit, and where the verifier
+    lowered it below the message no signature is valid (CHECK_SIG raises), so
+    the multisig check is not true either"""
+    functions = env.mods()[0]
+    seeds = [bytes(rng.getrandbits(8) for _ in range(32)) for _ in range(3)]
+    keys = [sigmsg.pubkey(s_) for s_ in seeds]
+    raised = rng.random() < 0.5
+    size = 4096 if raised else 128
+    total = rng.choice((1100, 2000, 3000) if raised else (129, 200, 300))
+    fields = {'sigfield1': bytes(rng.getrandbits(8) for _ in range(16))
+              * (total // 32), 'sigfield2': bytes(total - 16 * (total // 32))}
+    msg = sigmsg.message(fields, 0)
+    a, b = rng.sample(range(3), 2)
+    sigs = [sigmsg.sign(seeds[a], msg), sigmsg.sign(seeds[b], msg)]
+    case = {'kind': 'item-limit', 'item_size': size, 'seeds': seeds,
+            'signers': [a, b], 'fields': fields}
+    for verify in (False, True):
+        prog = prog_for(keys, sigs, 0, 2, 3, verify)
+        ctx.evaluated()
+        ctx.count('runs_under_item_limit_' + ('raised' if raised
+                                               else 'lowered'))
+        try:
+            _, stack, _ = functions.run_script(
+                prog, dict(fields), stack_max_item_size=size)
+            got = list(stack.deque)
+        except BaseException as e:
+            got = e
+        ok_true = got == ([] if verify else [b'\xff'])
+        if raised and not ok_true:
+            ctx.violation('multisig-rejects-quorum', 'a valid 2-of-3 quorum '
+                          f'over a {len(msg)}-byte message is refused under '
+                          f'stack_max_item_size={size}', case, 'true',
+                          repr(got)[:120])
+        elif not raised and not isinstance(got, BaseException):
+            ctx.violation('multisig-accepts', 'CHECK_MULTISIG'
+                          + ('_VERIFY' if verify else '') + ' does not raise '
+                          f'although the {len(msg)}-byte message cannot be '
+                          f'built under stack_max_item_size={size} (CHECK_SIG '
+                          'raises for every pair)', case, 'error',
+                          repr(got)[:120])
+        else:
+            ctx.mark_nontrivial(dg(('item-limit', size, len(msg), verify,
+                                    seeds[0])))
+
+
 def run_shard(spec, ctx):
     functions, parsing, tools, _, _ = env.mods()
     i, of = spec['shard'], spec['of']
@@ -286,6 +334,8 @@ def run_shard(spec, ctx):
     tier = ctx.tier
     nmax, mmax = (3, 3) if tier == 'quick' else (4, 3)
     idx = 0
+    for j in range(12 if tier == 'quick' else 300):
+        judge_item_limit(ctx, ctx.rng(('item-limit', j)))
     for n, m, sp in specs_exhaustive(nmax, mmax):
         idx += 1
         if idx % of != i:
@@ -376,6 +426,10 @@ def finalize(agg, tier):
 
 
 def replay(case, ctx):
+    if case.get('kind') == 'item-limit':
+        for j in range(12):
+            judge_item_limit(ctx, ctx.rng(('item-limit', j)))
+        return
     functions, parsing, tools, _, _ = env.mods()
     if case.get('kind') == 'builder':
         keys = [sigmsg.pubkey(s) for s in case['seeds']]
